@@ -1,5 +1,6 @@
 import FpVerif.Spec.C08
 import FpVerif.Lemmas.DeriveInst
+import FpVerif.Lemmas.DeriveFuel
 /-!
 # C08 — the concrete component instances satisfy the law bundles (non-vacuity made concrete)
 
@@ -75,7 +76,8 @@ theorem eqInst_lawful (d : Decl) (wf : d.WF) :
       (components_length _ _ _ _)
 
 /-- … and is the conjunction of the component equalities (`derivedEq_iff_fields` at the oracle's
-    component list). -/
+    component list).  (Existential form kept for compatibility; the statement that names the
+    component of every field is `eqInst_fieldwise_real` / `eqInst_structural` below.) -/
 theorem eqInst_fieldwise (d : Decl) (fuel : Nat) :
     ∃ ds : List (EqD DV), ds.length = d.spec.nApp ∧ d.eqInst (fuel + 1) = derivedEq d.spec ds :=
   ⟨_, components_length _ _ _ _, rfl⟩
@@ -539,6 +541,123 @@ theorem cloneInst_ok_rec (d : Decl) (hi : Inst.WFms d.insts) (hpi : Inst.WFms (d
     · rw [spine_addrs]
       exact ⟨K.fresh n, K.nodup n⟩
 
+/-! ## Fuel adequacy (audit finding 10)
+
+`eqInst_lawful` & co. hold for EVERY fuel, including the degenerate fuel-0 instance (all values
+equal), so by themselves they do not say that the oracle's fuel computes the real recursive
+instance.  This section does: `d.depthLE k x` (`Lemmas/DeriveFuel.lean`) says that the recursive
+references inside the struct value `x` nest less than `k` deep — defined by following exactly the
+projections the instance expressions of the fields use (`Inst.within`); on such values EVERY
+unfolding with at least `k` levels computes the same function, and that function satisfies the
+recursive equation of the Go code `EqS = eq.ContraMap(eq.TupleN(d1..dn), S.AsTuple)` in which the
+component behind `lazy.Call(func() fp.Eq[S] { return EqS() })` is the instance ITSELF
+(`eqInst_structural`).  The oracle uses fuel 24 (`Oracle/Derive.lean: fuel`); the grammar's value
+generator stops following recursive references at depth 3 (`harness/gombokgen/emit.go`:
+`if r.Depth < 3`: at most three nested values of the recursive struct), far below 24, so 24 is
+adequate for everything the harness sends (`oracle_fuel_adequate`). -/
+
+/-- `Eq`: on values of depth `≤ k` the unfolding with `k + 1` levels and every deeper one agree. -/
+theorem eqInst_fuel_adequate (d : Decl) (k j : Nat) (x y : List DV)
+    (hx : d.depthLE (k + 1) x) (hy : d.depthLE (k + 1) y) :
+    (d.eqInst (k + 1 + j)).eqv x y = (d.eqInst (k + 1)).eqv x y :=
+  eqInst_agree d (k + 1) j x y hx hy
+
+/-- `Ord`: the same for `Eqv` and `Less`. -/
+theorem ordInst_fuel_adequate (d : Decl) (k j : Nat) (x y : List DV)
+    (hx : d.depthLE (k + 1) x) (hy : d.depthLE (k + 1) y) :
+    (d.ordInst (k + 1 + j)).eqv x y = (d.ordInst (k + 1)).eqv x y ∧
+      (d.ordInst (k + 1 + j)).less x y = (d.ordInst (k + 1)).less x y :=
+  ordInst_agree d (k + 1) j x y hx hy
+
+/-- `Hashable`: the same for `Eqv` and `Hash`. -/
+theorem hashInst_fuel_adequate (d : Decl) (k j : Nat) (x y : List DV)
+    (hx : d.depthLE (k + 1) x) (hy : d.depthLE (k + 1) y) :
+    (d.hashInst (k + 1 + j)).eqv x y = (d.hashInst (k + 1)).eqv x y ∧
+      (d.hashInst (k + 1 + j)).hash x = (d.hashInst (k + 1)).hash x :=
+  ⟨(hashInst_agree d (k + 1) j).1 x y hx hy, (hashInst_agree d (k + 1) j).2 x hx⟩
+
+/-- Any two fuels above the depth of both values give the same answer (the values may have
+    different depths: `depthLE` is monotone, `Decl.depthLE_mono`). -/
+theorem eqInst_fuel_irrelevant (d : Decl) (k f1 f2 : Nat) (h1 : k ≤ f1) (h2 : k ≤ f2)
+    (x y : List DV) (hx : d.depthLE k x) (hy : d.depthLE k y) :
+    (d.eqInst f1).eqv x y = (d.eqInst f2).eqv x y := by
+  obtain ⟨j1, rfl⟩ := Nat.exists_eq_add_of_le h1
+  obtain ⟨j2, rfl⟩ := Nat.exists_eq_add_of_le h2
+  rw [eqInst_agree d k j1 x y hx hy, eqInst_agree d k j2 x y hx hy]
+
+theorem ordInst_fuel_irrelevant (d : Decl) (k f1 f2 : Nat) (h1 : k ≤ f1) (h2 : k ≤ f2)
+    (x y : List DV) (hx : d.depthLE k x) (hy : d.depthLE k y) :
+    (d.ordInst f1).eqv x y = (d.ordInst f2).eqv x y ∧
+      (d.ordInst f1).less x y = (d.ordInst f2).less x y := by
+  obtain ⟨j1, rfl⟩ := Nat.exists_eq_add_of_le h1
+  obtain ⟨j2, rfl⟩ := Nat.exists_eq_add_of_le h2
+  rw [(ordInst_agree d k j1 x y hx hy).1, (ordInst_agree d k j2 x y hx hy).1,
+    (ordInst_agree d k j1 x y hx hy).2, (ordInst_agree d k j2 x y hx hy).2]
+  exact ⟨rfl, rfl⟩
+
+theorem hashInst_fuel_irrelevant (d : Decl) (k f1 f2 : Nat) (h1 : k ≤ f1) (h2 : k ≤ f2)
+    (x y : List DV) (hx : d.depthLE k x) (hy : d.depthLE k y) :
+    (d.hashInst f1).eqv x y = (d.hashInst f2).eqv x y ∧
+      (d.hashInst f1).hash x = (d.hashInst f2).hash x := by
+  obtain ⟨j1, rfl⟩ := Nat.exists_eq_add_of_le h1
+  obtain ⟨j2, rfl⟩ := Nat.exists_eq_add_of_le h2
+  rw [(hashInst_agree d k j1).1 x y hx hy, (hashInst_agree d k j2).1 x y hx hy,
+    (hashInst_agree d k j1).2 x hx, (hashInst_agree d k j2).2 x hx]
+  exact ⟨rfl, rfl⟩
+
+/-- The oracle's fuel (24) answers like every deeper unfolding on all values whose recursive
+    references nest less than 24 deep — in particular on everything the grammar generates. -/
+theorem oracle_fuel_adequate (d : Decl) (x y : List DV) (hx : d.depthLE 24 x)
+    (hy : d.depthLE 24 y) (j : Nat) :
+    (d.eqInst (24 + j)).eqv x y = (d.eqInst 24).eqv x y ∧
+      ((d.ordInst (24 + j)).eqv x y = (d.ordInst 24).eqv x y ∧
+        (d.ordInst (24 + j)).less x y = (d.ordInst 24).less x y) ∧
+      ((d.hashInst (24 + j)).eqv x y = (d.hashInst 24).eqv x y ∧
+        (d.hashInst (24 + j)).hash x = (d.hashInst 24).hash x) :=
+  ⟨eqInst_agree d 24 j x y hx hy, ordInst_agree d 24 j x y hx hy,
+    (hashInst_agree d 24 j).1 x y hx hy, (hashInst_agree d 24 j).2 x hx⟩
+
+/-- The component that compares field `f` in the unfolding `fuel + 1`: the dictionary of the type
+    parameter when `f`'s type is one, else the denotation of the expression resolved for `f`'s
+    type — in both the recursive reference is `eqInst fuel` (on the fields of the record value). -/
+def eqField (d : Decl) (fuel : Nat) (f : Field) : EqD DV :=
+  let self : EqD DV := (d.eqInst fuel).comap (DV.asN d.spec.fields.length)
+  let pd : String → EqD DV := fun n => (d.paramInst n).eq ⟨self, fun _ => EqD.trivial⟩
+  resolve d.params pd (fun t => (d.givenInst t).eq ⟨self, pd⟩) f
+
+/-- which component compares which field: the component list of `eqInst (fuel + 1)` is `eqField`
+    mapped over the applicable fields in declaration order -/
+theorem eqInst_succ (d : Decl) (fuel : Nat) :
+    d.eqInst (fuel + 1) = derivedEq d.spec (d.spec.applicableFields.map (eqField d fuel)) := rfl
+
+/-- The real field-wise statement (replaces the existential `eqInst_fieldwise`): two values are
+    `Eqv` iff for every applicable field — the `i`-th in declaration order — the two field values
+    are `Eqv` under THAT field's component. -/
+theorem eqInst_fieldwise_real (d : Decl) (fuel : Nat) (x y : List DV) (hx : WFG d.spec x)
+    (hy : WFG d.spec y) :
+    (d.eqInst (fuel + 1)).eqv x y = true ↔
+      ∀ i (h : i < d.spec.nApp),
+        (eqField d fuel (d.spec.applicableFields[i]'h)).eqv
+          ((unapplyG d.spec x)[i]'(by rw [unapplyG_length d.spec x hx]; exact h))
+          ((unapplyG d.spec y)[i]'(by rw [unapplyG_length d.spec y hy]; exact h)) = true := by
+  rw [eqInst_succ, derivedEq_iff_fields d.spec _ x y hx hy (by simp [StructSpec.nApp])]
+  simp only [List.getElem_map]
+  exact Iff.rfl
+
+/-- At adequate fuel the instance satisfies the recursive equation of the generated code: `E x y`
+    iff every applicable field is `Eqv` under its component, where the component of a recursive
+    reference is `E` ITSELF (same fuel on both sides; no fuel-0 degenerate instance is involved as
+    soon as `1 ≤ k`, and for `k = 0` the hypothesis is empty). -/
+theorem eqInst_structural (d : Decl) (k fuel : Nat) (hk : k ≤ fuel) (x y : List DV)
+    (hx : WFG d.spec x) (hy : WFG d.spec y) (dx : d.depthLE k x) (dy : d.depthLE k y) :
+    (d.eqInst fuel).eqv x y = true ↔
+      ∀ i (h : i < d.spec.nApp),
+        (eqField d fuel (d.spec.applicableFields[i]'h)).eqv
+          ((unapplyG d.spec x)[i]'(by rw [unapplyG_length d.spec x hx]; exact h))
+          ((unapplyG d.spec y)[i]'(by rw [unapplyG_length d.spec y hy]; exact h)) = true := by
+  rw [eqInst_fuel_irrelevant d k fuel (fuel + 1) hk (by omega) x y dx dy]
+  exact eqInst_fieldwise_real d fuel x y hx hy
+
 /-! ## The hypotheses are satisfiable, the denotations compute -/
 
 /-- `type S struct { a MyInt; _p int; b fp.Option[string]; next *S }` in a package with the local
@@ -588,6 +707,67 @@ example :
     (runAlloc ((dB.cloneInst 2).clone
         [.ref 0 (spine [.leaf "x", .ref 1 (spine [.leaf "e"])]), .leaf "7"]) 2).1 =
       [.ref 2 (spine [.leaf "x", .ref 3 (spine [.leaf "e"])]), .leaf "7"] := by
+  decide +kernel
+
+/-! ### Fuel adequacy: the hypotheses are satisfiable and needed -/
+
+theorem sample_applicableFields :
+    sampleDecl.spec.applicableFields = [{ name := "a", ty := .conc "MyInt" },
+      { name := "b", ty := .conc "fp.Option[string]" }, { name := "next", ty := .conc "*S" }] := by
+  have a1 : Field.applicable { name := "a", ty := .conc "MyInt" } = true := by decide +kernel
+  have a2 : Field.applicable { name := "_p", ty := .conc "int" } = false := by decide +kernel
+  have a3 : Field.applicable { name := "b", ty := .conc "fp.Option[string]" } = true := by
+    decide +kernel
+  have a4 : Field.applicable { name := "next", ty := .conc "*S" } = true := by decide +kernel
+  simp [StructSpec.applicableFields, sampleDecl, List.filter, a1, a2, a3, a4]
+
+/-- which expression compares which field of `S` (resolution by field type) -/
+theorem sample_givenInst :
+    sampleDecl.givenInst (.conc "MyInt") = .prim "EqMyInt" ∧
+      sampleDecl.givenInst (.conc "fp.Option[string]") = .option (.prim "eq.String") ∧
+      sampleDecl.givenInst (.conc "*S") = .ptr .self := by
+  refine ⟨?_, ?_, ?_⟩ <;> simp [Decl.givenInst, sample_applicableFields] <;> simp [sampleDecl]
+
+/-- every `S` value whose `next` is nil or points to an `S` whose `next` is nil has depth `≤ 2`
+    (here: one concrete such value with a non-nil pointer, so `self` IS reached) -/
+theorem sample_depthLE (a a' : Int) (p p' : String) (b b' : DV) :
+    sampleDecl.depthLE 2 [.int a, .opaque p, b, .ptr (.record [.int a', .opaque p', b', .nil])] := by
+  have hp : sampleDecl.params = [] := rfl
+  have a1 : Field.applicable { name := "a", ty := .conc "MyInt" } = true := by decide +kernel
+  have a2 : Field.applicable { name := "_p", ty := .conc "int" } = false := by decide +kernel
+  have a3 : Field.applicable { name := "b", ty := .conc "fp.Option[string]" } = true := by
+    decide +kernel
+  have a4 : Field.applicable { name := "next", ty := .conc "*S" } = true := by decide +kernel
+  have hf : sampleDecl.spec.fields = [{ name := "a", ty := .conc "MyInt" },
+      { name := "_p", ty := .conc "int" }, { name := "b", ty := .conc "fp.Option[string]" },
+      { name := "next", ty := .conc "*S" }] := rfl
+  simp only [Decl.depthLE, Decl.withinFields, components, sample_applicableFields, List.map_cons,
+    List.map_nil, resolve, hp, List.contains_nil, sample_givenInst.1, sample_givenInst.2.1,
+    sample_givenInst.2.2, Inst.within, unapplyG, hf, projectG, a1, a2, a3, a4, if_true, DV.asPtr,
+    DV.asOpt, Bool.false_eq_true, if_false]
+  refine .cons trivial (.cons (fun _ _ => trivial) (.cons ?_ .nil))
+  intro w hw
+  cases hw
+  simp only [DV.asN, List.length_cons, List.length_nil, if_true, projectG, a1, a2, a3, a4,
+    Bool.false_eq_true, if_false]
+  refine .cons trivial (.cons (fun _ _ => trivial) (.cons ?_ .nil))
+  intro w hw
+  cases hw
+
+/-- … hence on these values the oracle's fuel-24 instance is the fuel-2 instance, and the latter
+    really looks behind the pointer (`7` vs `18` differ mod 10) -/
+example : (sampleDecl.eqInst 24).eqv
+    [.int 13, .opaque "1", .some (.str [97]), .ptr (.record [.int 7, .opaque "5", .none, .nil])]
+    [.int 3, .opaque "2", .some (.str [97]), .ptr (.record [.int 18, .opaque "6", .none, .nil])] = false := by
+  rw [eqInst_fuel_irrelevant sampleDecl 2 24 2 (by omega) (by omega) _ _
+    (sample_depthLE _ _ _ _ _ _) (sample_depthLE _ _ _ _ _ _)]
+  decide +kernel
+
+/-- the depth hypothesis cannot be dropped: with ONE unfolding the recursive reference is the
+    degenerate all-equal instance and the same two values (depth 2) are wrongly `Eqv` -/
+example : (sampleDecl.eqInst 1).eqv
+    [.int 13, .opaque "1", .some (.str [97]), .ptr (.record [.int 7, .opaque "5", .none, .nil])]
+    [.int 3, .opaque "2", .some (.str [97]), .ptr (.record [.int 18, .opaque "6", .none, .nil])] = true := by
   decide +kernel
 
 end FpVerif.Spec.C08Inst
